@@ -110,6 +110,19 @@ def accepted_intervals(fn):
                 if lo is None or hi is None:
                     return None
                 return [(lo, hi)] if lo <= hi else []
+            if n.get("kind") == "BinaryOperator" and n.get("opcode") in ("<=", "<", ">=", ">"):
+                l, r_ = strip(n["inner"][0]), strip(n["inner"][1])
+                op = n["opcode"]
+                if l.get("kind") == "DeclRefExpr":
+                    k = const_of(r_)
+                else:
+                    k = const_of(l)
+                    op = {"<=": ">=", "<": ">", ">=": "<=", ">": "<"}[op]
+                if k is None:
+                    return None
+                TOP = (1 << 64) - 1
+                lo, hi = {"<=": (0, k), "<": (0, k - 1), ">=": (k, TOP), ">": (k + 1, TOP)}[op]
+                return [(lo, hi)] if lo <= hi else []
             if n.get("kind") == "CXXBoolLiteralExpr":
                 return [] if not n.get("value") else None
             return None
